@@ -59,6 +59,34 @@ def framework_of(c):
     return None
 
 
+def grounded_classes_verdict(n, atts, parsed):
+    """None when the classes of the implementation (parse_out) keep the grounded extension inside ONE class and the
+    arguments it defeats inside ONE class; else a description.  Polynomial: usable on frameworks of any size."""
+    if parsed is None:
+        return None
+    attackers = {a: set() for a in range(n)}
+    targets = {a: set() for a in range(n)}
+    for (a, b) in atts:
+        attackers[b].add(a)
+        targets[a].add(b)
+    G, D = set(), set()
+    changed = True
+    while changed:
+        changed = False
+        for a in range(n):
+            if a not in G and a not in D and attackers[a] <= D:
+                G.add(a)
+                D |= targets[a]
+                changed = True
+    cls = parsed.get("classes") if isinstance(parsed, dict) else None
+    if cls is None:
+        return None
+    for name, S in (("grounded extension", G), ("arguments defeated by the grounded extension", D)):
+        if S and not any(S <= c for c in cls):
+            return "bad the %s %s is spread over several classes" % (name, sorted(S)[:12])
+    return None
+
+
 def case_text(n, atts, why="minimised"):
     return "CASE 1 equiv\nIN recipe %s\nIN iccma %d %s\nEND\n" % (why, n, " ".join("%d %d" % p for p in atts))
 
@@ -142,7 +170,7 @@ def main(ctx):
     runs = [("random", run_mode(ctx, h, d, "equiv", total, drv_modes=drv, tag="equiv")),
             ("exhaustive", run_mode(ctx, h, d, "equiv", 0, extra="--exhaustive %d" % (4 if ctx.thorough else 3),
                                     drv_modes=drv, tag="equiv-ex", timeout=900))]
-    n_cases = n_oracle = n_skipped = n_order_only = n_search = 0
+    n_cases = n_oracle = n_skipped = n_order_only = n_search = n_grounded_judged = 0
     distinct, distinct_nontrivial = set(), set()
     recipes, sizes, merged_hist, feats = {}, {}, {}, {"duplicate_attack_lines": 0, "self_attack": 0, "several_classes_merged": 0,
                                                         "grounded_nonempty": 0, "grounded_defeated_nonempty": 0}
@@ -198,6 +226,13 @@ def main(ctx):
                                         "oracle": sc.outs})
                 elif v == "skipped-too-large":
                     n_skipped += 1
+                    # polynomial part of the oracle, for any size: "all arguments of the grounded extension together,
+                    # and all arguments it defeats together"
+                    gv = grounded_classes_verdict(n, atts, parse_out(c))
+                    if gv is not None:
+                        oracle_bad.append(("oracle (grounded classes, any size) on the implementation's output: %s" % gv, c))
+                        continue
+                    n_grounded_judged += 1
                 elif v == "panic":
                     oracle_bad.append(("the reducer panics on a compact framework: %s" % " ".join(c.outs)[:200], c))
                     continue
@@ -266,6 +301,7 @@ def main(ctx):
     ctx.cov.update({
         "evaluations": n_cases,
         "search_cases_after_broken_correspondence": n_search,
+        "large_cases_judged_by_the_grounded_class_oracle": n_grounded_judged,
         "oracle_evaluations": n_oracle,
         "oracle_skipped_too_large": n_skipped,
         "distinct_frameworks": len(distinct),
